@@ -384,13 +384,17 @@ PROPS['C14'] = dict(
 
 # ---------------------------------------------------------------------------
 # C17
-C17_TRAITS = ['DynSelector', 'DynMutator', 'DynRecombinator', 'DynOperator', 'DynChildMaker']
+C17_TRAITS = ['DynSelector', 'DynMutator', 'DynRecombinator', 'DynOperator', 'DynChildMaker', 'DynWeighted as a consumer of erased selectors']
 C17_IMPLS = [['Best', 'Worst', 'Random', 'Tournament(2)', 'Tournament(5)', 'WeightedPair(Best:1, Tournament(5):1)', 'draw-then-fail selector', 'forty selections at the same time through one shared Arc<dyn DynSelector + Send + Sync>'], ['WithRate(0.3)', 'WithOneOverLength', 'failing mutator'],
              ['UniformXo', 'TwoPointXo', 'failing recombinator'], ['AddWord', 'AddWord.then(AddWord)', 'failing operator', 'Mutate(WithRate(0.5))', 'operator failing with an error that has a source', '400 failing applications, then one more'],
              ['select+word', 'two parents', 'failing child maker']]
 C17_PTR = ['&', '&mut', 'RefMut', 'Box', 'Arc', 'Rc', 'Ref']
 C17_AUTO = ['', '+Send', '+Sync', '+Send+Sync']
 def c17_describe(inp, obs):
+    if inp[0] == 5:
+        return ('DynWeighted (which keeps its options as Box<dyn DynSelector>) built from the forced list %s ([0, k]: a leaf that selects index k or, k < 0, fails with code -k; '
+                '[1, [[member, weight]..]]: a list, a nested list handed over as the concrete DynWeighted value), one selection with seed %d; observed [55, [0, index] | [1, shape]] with shape '
+                '[0] EmptyPopulation / [1] ZeroWeightSum / [2, shape] Other(inner, identified by downcasting) / [3, code] the leaf error' % (inp[4], inp[3]))
     return '%s behind %s<dyn %s%s>, seed %d, data %s; observed [concrete outcome, next word, erased outcome, next word]' % (
         C17_IMPLS[inp[0]][inp[1]], C17_PTR[(inp[2] % 28) // 4], C17_TRAITS[inp[0]], C17_AUTO[inp[2] % 4] + (' (method-call syntax)' if inp[2] >= 28 else ''), inp[3], inp[4])
 PROPS['C17'] = dict(
@@ -399,12 +403,12 @@ PROPS['C17'] = dict(
     describe=c17_describe, no_shrink=True,
     nontrivial=lambda i, o: True,
     bucket=lambda i, o: ['trait=%s' % C17_TRAITS[i[0]], 'pointer=%s' % C17_PTR[(i[2] % 28) // 4], 'auto=%s' % (C17_AUTO[i[2] % 4] or 'none'), 'syntax=%s' % ('method call' if i[2] >= 28 else 'explicit impl'),
-                         'outcome=%s' % ('ok' if isinstance(o, list) and len(o) == 4 and o[0][0] == 0 else 'err')],
+                         'outcome=%s' % ('ok' if isinstance(o, list) and ((len(o) == 4 and o[0][0] == 0) or (len(o) == 2 and o[0] == 55 and o[1][0] == 0)) else 'err')],
     classify=lambda i, o: '%s/%s' % (C17_TRAITS[i[0]], C17_PTR[(i[2] % 28) // 4]),
-    rule='all five erasable traits x all 28 generated pointer flavours (7 pointer kinds x {none, Send, Sync, Send+Sync}), each called both through the generated impl named explicitly and with method-call syntax (where an inherent method on the trait object would win), x 3-5 wrapped implementations each (library selectors, mutators, recombinators, composed operators, child makers, and one failing implementation per trait) x 2 (quick) / 12 (thorough) seeded inputs incl. empty populations and length-mismatched parents (error paths). The concrete call and the erased call start from clones of one generator; the selected index (pointer identity) / genome / value, the error (its message, its debug form and the messages of its whole source chain - the erased error must still be the error of the wrapped implementation, not a rendering of it) and the next word of each generator are compared; the 32-bit draws of the generator are neither half of its 64-bit draws, so an adapter deriving one from the other shows. A flavour that stops compiling breaks the harness build (reported as broken correspondence). Every case is non-trivial.',
+    rule='all five erasable traits x all 28 generated pointer flavours (7 pointer kinds x {none, Send, Sync, Send+Sync}), each called both through the generated impl named explicitly and with method-call syntax (where an inherent method on the trait object would win), x 3-5 wrapped implementations each (library selectors, mutators, recombinators, composed operators, child makers, and one failing implementation per trait) x 2 (quick) / 12 (thorough) seeded inputs incl. empty populations and length-mismatched parents (error paths). The concrete call and the erased call start from clones of one generator; the selected index (pointer identity) / genome / value, the error (its message, its debug form and the messages of its whole source chain - the erased error must still be the error of the wrapped implementation, not a rendering of it) and the next word of each generator are compared; the 32-bit draws of the generator are neither half of its 64-bit draws, so an adapter deriving one from the other shows. A flavour that stops compiling breaks the harness build (reported as broken correspondence). A CONSUMER of erased selectors, DynWeighted, on 11 fixed and 60 / 400 random forced lists (at most one option of positive weight, nested up to five deep): the structure of the error it reports (variant, and the payload of Other identified by downcasting) must be Other(the error of the option used), once per level of nesting - the model forced of Ec/Erased.v. Every case is non-trivial.',
     trusted=['error identity is observed as message + debug form + source-chain messages of the boxed error'],
     assumptions=['thin model by design: the property says the layer adds nothing'],
-    level_text='Theorems (Props/C17.v): erase into f returns the same value, the image of the same error, and leaves the threaded state (random stream) exactly as f does, for every f; pointer flavours are the identity on behaviour; erasing twice composes the conversions. Tied to the code by instantiating every generated flavour of every erasable trait around concrete implementations and comparing with the concrete call from a cloned generator.',
+    level_text='Theorems (Props/C17.v): erase into f returns the same value, the image of the same error, and leaves the threaded state (random stream) exactly as f does, for every f; pointer flavours are the identity on behaviour; erasing twice composes the conversions; a consumer of erased selectors (the dynamic weighted list, on forced lists) reports the error of the option it used as Other(that error) - wrapped once per level of nesting, never un-nested, never as its own - and never uses an option of weight zero. Tied to the code by instantiating every generated flavour of every erasable trait around concrete implementations and comparing with the concrete call from a cloned generator.',
     level_note='Trusted: Coq kernel; harness+driver; generated instantiation code (harness/gen/gen_c17.py).',
     technique='Coq equational theorems for erase = map_err into + exhaustive flavour instantiation (5 traits x 28 flavours) differential correspondence',
     design_ref='DESIGN.md §6 C17',
